@@ -601,7 +601,7 @@ func genCase(t *rapid.T, mode string) m19.Case {
 	return c
 }
 
-const ruleCommon = "rapid: call chain of 0-12 links drawn from 21 link kinds (declaration, named/anonymous function expression, method, constructor, seven array callbacks, getter, setter, direct and indirect eval, bound function, call/apply, Go host function, non-reference callee) with recursion, try/finally/rethrow wrappers, nine statement forms and noise statements; one raising construct in the innermost frame; layout (indentation, blank lines, comments, token-level line splitting, definition order) from a byte tape; the renderer reports the position of every call site; trace limit 1-12 or 50; file name via Compile/ParseFile or anonymous. Each case runs a catching sibling program (class, prototype chain, name, message) and the uncaught program (error text = 'Name: message' seen by the script; trace lines = active frames innermost first, truncated at the limit). non-trivial = >= 3 links of >= 2 kinds and the construct not at 1:1; distinct by the JSON of the case. "
+const ruleCommon = "rapid: call chain of 0-12 links drawn from 21 link kinds (declaration, named/anonymous function expression, method, constructor, seven array callbacks, getter, setter, direct and indirect eval, bound function, call/apply, Go host function, non-reference callee) with recursion, try/finally/rethrow wrappers, nine statement forms and noise statements (including a direct eval that returns and one whose code throws and is caught in the same frame); one raising construct in the innermost frame; layout (indentation, blank lines, comments, token-level line splitting, definition order) from a byte tape; the renderer reports the position of every call site; trace limit 1-12 or 50; file name via Compile/ParseFile or anonymous. Each case runs a catching sibling program (class, prototype chain, name, message) and the uncaught program (error text = 'Name: message' seen by the script; trace lines = active frames innermost first, truncated at the limit). non-trivial = >= 3 links of >= 2 kinds and the construct not at 1:1; distinct by the JSON of the case. "
 
 var traceFacet = harness.Register(&harness.Facet[m19.Case]{
 	Name:  "trace",
@@ -613,7 +613,7 @@ var traceFacet = harness.Register(&harness.Facet[m19.Case]{
 
 var syntaxFacet = harness.Register(&harness.Facet[m19.Case]{
 	Name:  "syntax",
-	Rule:  ruleCommon + "This facet: the construct is one of 20 injected syntax errors (unterminated string/regexp, unexpected token, juxtaposed tokens, illegal character, illegal break/continue/return, bad regexp, unclosed block); half of the cases put it into eval code (SyntaxError with trace, message carries the position), otherwise the program itself fails: parser.ErrorList[0].Position, the error text, and eval of the same text must name the offending token's line and column. non-trivial for parse errors = token not in line 1 / column 1.",
+	Rule:  ruleCommon + "This facet: the construct is one of 28 injected syntax errors (unterminated string/regexp, unexpected token, juxtaposed tokens, illegal character, illegal break/continue/return, bad regexp, and nine truncations reported at end of input: unclosed block/paren/array/call/object/function/comment, trailing operator, optionally followed by a comment on the last line); half of the cases put it into eval code (SyntaxError with trace, message carries the position), otherwise the program itself fails: parser.ErrorList[0].Position, the error text, and eval of the same text must name the offending token's line and column. non-trivial for parse errors = token not in line 1 / column 1.",
 	Quick: 700, Thorough: 10000,
 	Gen:   func(t *rapid.T) m19.Case { return genCase(t, "syntax") },
 	Check: checkCase,
